@@ -12,6 +12,8 @@ def run(ctx):
                         "zero-progress reads (n = 0, nil) are outside the io.Reader contract and not generated",
                         "the clause 'well-formed input decodes to Denote(input)' is discharged per format by the read events of C01-C05"]
     ctx.model_check("MC_Stream", "MC_Stream_t7" if thorough else "MC_Stream_t", workers=16, heap="12g", timeout=3400)
+    for cfg in (("MC_StreamLines_fq_t", "MC_StreamLines_rs_t") if thorough else ("MC_StreamLines_fq_q", "MC_StreamLines_rs_q")):
+        ctx.model_check("MC_StreamLines", cfg, workers=16, heap="12g", timeout=3400)
     if thorough:
         cross.leg(ctx, "delivery-drive", [250, 500])
     else:
